@@ -14,6 +14,7 @@ PRE = r'''
 #include <random>
 #include <string>
 #include <vector>
+#include <array>
 #include <limits>
 #include <quadmath.h>
 %(includes)s
@@ -36,7 +37,27 @@ template<> struct NT<long double>{ static constexpr const char* c="l"; };
 template<class T> static Q ulp_of(Q x){ x = fabsq(x); const int p = std::numeric_limits<T>::digits;
   if(x < (Q)std::numeric_limits<T>::min()) return (Q)std::numeric_limits<T>::denorm_min();
   int e; frexpq(x,&e); return ldexpq((Q)1, e-p); }
-struct Acc { double worst=0; long n=0; int zero=1, sym=1; unsigned classes=0; long double wx=0; int nonfinite=0; };
+struct Acc { double worst=0; long n=0; int zero=1, sym=1; unsigned classes=0; long double wx=0; int nonfinite=0; long seq_n=0, seq_diff=0; };
+template<class T> static bool biteq(T a, T b){ return std::memcmp(&a,&b, sizeof(T)>10? 10 : sizeof(T))==0 || (a!=a && b!=b); }
+// the sequence overloads (std::array, std::vector, PlanarVector, Vector, SymmetricDyad, Dyad) must return, component by component, the bits of the scalar overload
+template<class T> static void seqcmp(Acc& acc, const T* got, const std::vector<T>& want, size_t at, size_t n){ for(size_t c=0;c<n;c++){ acc.seq_n++; if(!biteq(got[c], want[(at+c)%%want.size()])) acc.seq_diff++; } }
+template<class T, size_t N> static std::array<T,N> take(const std::vector<T>& v, size_t at){ std::array<T,N> a{}; for(size_t c=0;c<N;c++) a[c]=v[(at+c)%%v.size()]; return a; }
+template<class U, class T> static void runtime_sequences(Acc& acc, const std::vector<T>& xs, const std::vector<T>& ys, U a, U b){
+  for(size_t at=0; at<xs.size(); at+=7){
+    { auto in=take<T,5>(xs,at); auto o=Convert(in,a,b); seqcmp(acc,o.data(),ys,at,5); auto io=in; ConvertInPlace(io,a,b); seqcmp(acc,io.data(),ys,at,5); }
+    { auto in=take<T,4>(xs,at); std::vector<T> v(in.begin(),in.end()); auto o=Convert(v,a,b); seqcmp(acc,o.data(),ys,at,4); ConvertInPlace(v,a,b); seqcmp(acc,v.data(),ys,at,4); }
+    { PlanarVector<T> in(take<T,2>(xs,at)); auto o=Convert(in,a,b); seqcmp(acc,o.x_y().data(),ys,at,2); ConvertInPlace(in,a,b); seqcmp(acc,in.x_y().data(),ys,at,2); }
+    { Vector<T> in(take<T,3>(xs,at)); auto o=Convert(in,a,b); seqcmp(acc,o.x_y_z().data(),ys,at,3); ConvertInPlace(in,a,b); seqcmp(acc,in.x_y_z().data(),ys,at,3); }
+    { SymmetricDyad<T> in(take<T,6>(xs,at)); auto o=Convert(in,a,b); seqcmp(acc,o.xx_xy_xz_yy_yz_zz().data(),ys,at,6); ConvertInPlace(in,a,b); seqcmp(acc,in.xx_xy_xz_yy_yz_zz().data(),ys,at,6); }
+    { Dyad<T> in(take<T,9>(xs,at)); auto o=Convert(in,a,b); seqcmp(acc,o.xx_xy_xz_yx_yy_yz_zx_zy_zz().data(),ys,at,9); ConvertInPlace(in,a,b); seqcmp(acc,in.xx_xy_xz_yx_yy_yz_zx_zy_zz().data(),ys,at,9); }
+    { T one=xs[at]; ConvertInPlace(one,a,b); seqcmp(acc,&one,ys,at,1); } } }
+template<class U, U a, U b, class T> static void static_sequences(Acc& acc, const std::vector<T>& xs, const std::vector<T>& ys){
+  for(size_t at=0; at<xs.size(); at+=7){
+    { auto o=ConvertStatically<U,a,b>(take<T,5>(xs,at)); seqcmp(acc,o.data(),ys,at,5); }
+    { auto o=ConvertStatically<U,a,b>(PlanarVector<T>(take<T,2>(xs,at))); seqcmp(acc,o.x_y().data(),ys,at,2); }
+    { auto o=ConvertStatically<U,a,b>(Vector<T>(take<T,3>(xs,at))); seqcmp(acc,o.x_y_z().data(),ys,at,3); }
+    { auto o=ConvertStatically<U,a,b>(SymmetricDyad<T>(take<T,6>(xs,at))); seqcmp(acc,o.xx_xy_xz_yy_yz_zz().data(),ys,at,6); }
+    { auto o=ConvertStatically<U,a,b>(Dyad<T>(take<T,9>(xs,at))); seqcmp(acc,o.xx_xy_xz_yx_yy_yz_zx_zy_zz().data(),ys,at,9); } } }
 template<class T> static std::vector<T> values(uint64_t seed, Q la, Q lr, bool affine, int per){
   // exponents e such that x, x*mag_a and the result stay well inside the normal range
   const int emin = std::numeric_limits<T>::min_exponent + 16, emax = std::numeric_limits<T>::max_exponent - 16;
@@ -70,8 +91,8 @@ template<class T> static void score(Acc& acc, T x, T got, const Mag& A, const Ma
 }
 template<class T> static void emit(const char* Ty, const char* a, const char* b, const char* entry, bool affine, const Acc& acc, double rt_static_ulps){
   double w = acc.worst; long wi = w > 1e9 ? 1000000000L : (long)std::ceil(w);
-  printf("{\"e\":\"Conv\",\"type\":\"%%s\",\"from\":\"%%s\",\"to\":\"%%s\",\"num\":\"%%s\",\"entry\":\"%%s\",\"affine\":%%s,\"ulps\":%%ld,\"n\":%%ld,\"zero\":%%d,\"sym\":%%d,\"classes\":%%u,\"nonfinite\":%%d,\"vs_runtime\":%%ld,\"witness\":\"%%La\"}\n",
-    Ty,a,b,NT<T>::c,entry,affine?"true":"false",wi,acc.n,acc.zero,acc.sym,acc.classes,acc.nonfinite,(long)std::ceil(rt_static_ulps),acc.wx); }
+  printf("{\"e\":\"Conv\",\"type\":\"%%s\",\"from\":\"%%s\",\"to\":\"%%s\",\"num\":\"%%s\",\"entry\":\"%%s\",\"affine\":%%s,\"ulps\":%%ld,\"n\":%%ld,\"zero\":%%d,\"sym\":%%d,\"classes\":%%u,\"nonfinite\":%%d,\"vs_runtime\":%%ld,\"seq_n\":%%ld,\"seq_diff\":%%ld,\"witness\":\"%%La\"}\n",
+    Ty,a,b,NT<T>::c,entry,affine?"true":"false",wi,acc.n,acc.zero,acc.sym,acc.classes,acc.nonfinite,(long)std::ceil(rt_static_ulps),acc.seq_n,acc.seq_diff,acc.wx); }
 template<class T> static double ulps_between(T a, T b){ if(a==b) return 0; if(!std::isfinite((long double)a)||!std::isfinite((long double)b)) return 1e9; Q s = fabsq((Q)a)>fabsq((Q)b)? (Q)a:(Q)b; return (double)(fabsq((Q)a-(Q)b)/ulp_of<T>(s)); }
 
 template<class U, class T, size_t N> static void runtime_pairs(const char* Ty, const NameTab<U>(&tab)[N], U stdu, int mode, uint64_t seed, int per){
@@ -85,8 +106,10 @@ template<class U, class T, size_t N> static void runtime_pairs(const char* Ty, c
     const Mag& A=ia->second; const Mag& B=ib->second; bool affine=A.has_off||B.has_off;
     Acc acc; Q la=log2q(A.mag), lr=log2q(A.mag/B.mag);
     std::vector<T> vs = values<T>(seed+i*131+j, la, lr, affine, per);
-    for(T x: vs){ T y = Convert(x, tab[i].v, tab[j].v); score(acc,x,y,A,B);
+    std::vector<T> ys;
+    for(T x: vs){ T y = Convert(x, tab[i].v, tab[j].v); ys.push_back(y); score(acc,x,y,A,B);
       if(!affine){ T z = Convert(-x, tab[i].v, tab[j].v); if(!(z==-y)) acc.sym=0; } }
+    runtime_sequences<U,T>(acc, vs, ys, tab[i].v, tab[j].v);
     emit<T>(Ty, tab[i].n, tab[j].n, "run", affine, acc, 0);
   }
 }
@@ -96,9 +119,11 @@ template<class U, U a, U b, class T> static void static_pair(const char* Ty, con
   const Mag& A=ia->second; const Mag& B=ib->second; bool affine=A.has_off||B.has_off;
   Acc acc; Q la=log2q(A.mag), lr=log2q(A.mag/B.mag); double vs_rt=0;
   std::vector<T> vs = values<T>(seed, la, lr, affine, per);
-  for(T x: vs){ T y = ConvertStatically<U,a,b,T>(x); score(acc,x,y,A,B);
+  std::vector<T> ys;
+  for(T x: vs){ T y = ConvertStatically<U,a,b,T>(x); ys.push_back(y); score(acc,x,y,A,B);
     T r = Convert(x,a,b); double d = ulps_between(y,r); if(d>vs_rt) vs_rt=d;
     if(!affine){ T z = ConvertStatically<U,a,b,T>(-x); if(!(z==-y)) acc.sym=0; } }
+  static_sequences<U,a,b,T>(acc, vs, ys);
   emit<T>(Ty, an, bn, "static", affine, acc, vs_rt);
 }
 '''
